@@ -40,9 +40,11 @@ def stream(rng, generator, keep=lambda scn: True, tweak=None):
     """endless stream of asyncio scenarios from one of the C17 / C18 generators"""
     while True:
         for scn in generator(rng, 8, "quick"):
+            if scn.get("sliced"):
+                continue
             if tweak is not None:
                 scn = tweak(rng, scn)
-            if scn is not None and keep(scn):
+            if scn is not None and keep(scn) and not scn.get("sliced"):      # (C18's sliced-loop family is its own)
                 yield scn
 
 
@@ -414,6 +416,45 @@ def first_due_specs(r, tm_tokens):
                 qs.append((f"spec eq {o['clock'] + t[1]} {due}", {"what": "aio once_timedelta", "key": k}))
             elif t[0] in ("t", "w"):
                 qs.append((f"spec least {tm_tokens(3 if t[0] == 't' else 4, t)} {o['clock']} {due}", {"what": "aio once_clock/weekday", "key": k}))
+    return qs
+
+
+def skip_specs(r, tms_tokens):
+    """skip_missing in the asyncio front end: the reference of the rescheduling is the completion time t of the run -
+    the next due time is exactly t + interval for cyclic jobs, and for the other types an occurrence of one of the
+    job's times, not earlier than t, with nothing skipped in between (the C08 Spec, `spec skipdue`)"""
+    qs = []
+    jobs = {k: o for k, o in top_jobs(r).items() if o.get("skip") and o.get("delay", True)}
+    if not jobs:
+        return qs
+    pending = {}       # key -> completion instant of the last run, waiting for the next due time to show
+    last_jobs = {}
+    for i, ob in enumerate(r["obs"]):
+        for (t, k, kind, due) in ob.get("events", []):
+            if k not in jobs:
+                continue
+            if kind == "S" and k in pending:
+                t_end = pending.pop(k)
+                o2 = jobs[k]
+                if o2["call"] == 0:
+                    qs.append((f"spec eq {t_end + o2['timings'][0][1]} {due}", {"what": "aio skip_cyclic_exact (reference = completion time)", "key": k, "op": i}))
+                else:
+                    qs.append((f"spec skipdue {tms_tokens(o2)} {t_end} {max(t_end, ref_of(o2))} {due}", {"what": "aio skip_due (reference = completion time)", "key": k, "op": i}))
+            elif kind in ("E", "X"):
+                pending[k] = t
+            elif kind == "C":
+                pending.pop(k, None)
+        last_jobs = ob.get("jobs", last_jobs)
+        # a run that ended in this observation and was not followed by another start: the snapshot shows the new due time
+        for k, t_end in list(pending.items()):
+            v = ob["jobs"].get(k)
+            if v is not None and v[4] == 1 and v[5] == 1:
+                o2 = jobs[k]
+                if o2["call"] == 0:
+                    qs.append((f"spec eq {t_end + o2['timings'][0][1]} {v[0]}", {"what": "aio skip_cyclic_exact (reference = completion time)", "key": k, "op": i}))
+                else:
+                    qs.append((f"spec skipdue {tms_tokens(o2)} {t_end} {max(t_end, ref_of(o2))} {v[0]}", {"what": "aio skip_due (reference = completion time)", "key": k, "op": i}))
+            pending.pop(k, None)
     return qs
 
 
